@@ -4,7 +4,7 @@ import ast
 import struct
 
 from ..report import rule
-from .. import pm, norm, cfg as cfgmod, guards
+from .. import pm, norm, cfg as cfgmod, guards, cases
 from ..model import AnalysisError
 from .common import calls_of, find_calls, returns_of, is_abstract_body, bind_args
 
@@ -165,65 +165,126 @@ def c10_r1(ctx):
     mw = prog.method(W3 + "W3PostingsWriter", "_mini_weights", inherited=False)
     ctx.saw(mw)
     fa = guards.Facts(mw)
-    cases = {}
+    wcases = {}
     for n in fa.g.nodes:
         if n.kind == "return":
             v = norm.canon(n.ast.value) if n.ast.value is not None else "None"
-            cases[v] = sorted(t for (p, t) in (fa.at(n) or []) if p == "T")
+            wcases[v] = sorted(t for (p, t) in (fa.at(n) or []) if p == "T")
     al = norm.aliases(mw.node)
     MW = pm.Alpha(mw)
-    none_ok = "None" in cases and any(MW.eq(norm.substitute(norm.parse_expr(t), al), "all(w == 1.0 for w in self._weights)") for t in cases["None"])
-    scalar = [k for k in cases if k.endswith("[0]")]
+    none_ok = "None" in wcases and any(MW.eq(norm.substitute(norm.parse_expr(t), al), "all(w == 1.0 for w in self._weights)") for t in wcases["None"])
+    scalar = [k for k in wcases if k.endswith("[0]")]
     MW2 = pm.Alpha(mw)
     scalar_ok = len(scalar) == 1 and norm.canon(norm.parse_expr(scalar[0]), al) == "self._weights[0]" and \
-        any(MW2.eq(norm.substitute(norm.parse_expr(t), al), "all(w == self._weights[0] for w in self._weights)") for t in cases[scalar[0]])
+        any(MW2.eq(norm.substitute(norm.parse_expr(t), al), "all(w == self._weights[0] for w in self._weights)") for t in wcases[scalar[0]])
     rw = prog.method(W3 + "W3LeafMatcher", "_read_weights", inherited=False)
-    RW = pm.Alpha(rw)
-    frw = guards.Facts(rw)
-    stores = []
-    RW.find(pm.stmts_of(rw.node), "weights = self._data[1]")
-    for n in frw.g.nodes:
-        a_ = n.ast
-        if n.kind == "stmt" and isinstance(a_, ast.Assign) and norm.canon(a_.targets[0]) == "self._weights":
-            facts = frw.at(n) or frozenset()
-            def fill_value(e):
-                """the element a constant-filled array is built from: array(t, (x for _ in range(n))) / array(t, [x]) * n / [x] * n"""
-                if isinstance(e, ast.BinOp) and isinstance(e.op, ast.Mult):
-                    for side in (e.left, e.right):
-                        if isinstance(side, ast.Call) and side.args and isinstance(side.args[-1], ast.List) and len(side.args[-1].elts) == 1:
-                            return side.args[-1].elts[0]
-                        if isinstance(side, ast.List) and len(side.elts) == 1:
-                            return side.elts[0]
-                if isinstance(e, ast.Call) and e.args and isinstance(e.args[-1], (ast.GeneratorExp, ast.ListComp)):
-                    return e.args[-1].elt
-                return None
-            fv = fill_value(a_.value)
-            if RW.fact(facts, "T", "weights is None"):
-                stores.append("none" if fv is not None and norm.canon(fv) == "1.0" else "none?")
-            elif RW.fact(facts, "T", "isinstance(weights, float)"):
-                stores.append("scalar" if fv is not None and RW.eq(fv, "weights") else "scalar?")
-            else:
-                stores.append("array" if RW.eq(a_.value, "weights") else "array?")
-    reader_ok = sorted(stores) == ["array", "none", "scalar"]
+
+    def fill_value(e):
+        """the element a constant-filled array is built from: array(t, (x for _ in range(n))) / array(t, [x]) * n / array(t, [x] * n)"""
+        if isinstance(e, ast.BinOp) and isinstance(e.op, ast.Mult):
+            for side in (e.left, e.right):
+                if isinstance(side, ast.Call) and side.args and isinstance(side.args[-1], ast.List) and len(side.args[-1].elts) == 1:
+                    return side.args[-1].elts[0]
+                if isinstance(side, (ast.List, ast.Tuple)) and len(side.elts) == 1:
+                    return side.elts[0]
+        if isinstance(e, ast.Call) and e.args and isinstance(e.args[-1], (ast.GeneratorExp, ast.ListComp)):
+            return e.args[-1].elt
+        if isinstance(e, ast.Call) and e.args and isinstance(e.args[-1], ast.BinOp):
+            return fill_value(e.args[-1])
+        return None
+
+    # the reader as a table: what self._weights holds for each kind of pickled weights (None / one float / an array),
+    # whatever the shape of the branches (ladder, nested ifs, a cascade that rebinds the local)
+    def w_absval(e, env, ev):
+        if cases.path_text(e, env) == "self._data[1]":
+            return env["<input>"]
+        if cases.is_plain_path(e):
+            return ("path", cases.path_text(e, env))
+        ok, v = cases.const_of(e)
+        if ok:
+            return ("const", v)
+        fv = fill_value(e)
+        if fv is not None:
+            return ("fill", ev.value(fv, env))
+        return cases.OPAQUE(norm.canon(e))
+
+    def w_decide(t, env, ev):
+        if isinstance(t, ast.Compare) and len(t.ops) == 1 and isinstance(t.ops[0], (ast.Is, ast.IsNot)) \
+                and isinstance(t.comparators[0], ast.Constant) and t.comparators[0].value is None:
+            v = ev.value(t.left, env)
+            if v[0] in ("in", "const", "fill"):
+                isnone = v == ("in", "none") or v == ("const", None)
+                return isnone if isinstance(t.ops[0], ast.Is) else not isnone
+            return None
+        if isinstance(t, ast.Call) and norm.call_name(t) == "isinstance" and len(t.args) == 2 and norm.canon(t.args[1]) == "float":
+            v = ev.value(t.args[0], env)
+            if v[0] == "in":
+                return v[1] == "float"
+            if v[0] == "const":
+                return isinstance(v[1], float)
+            if v[0] == "fill":
+                return False
+            return None
+        if norm.canon(t) in ("(None is self._data)", "(None is not self._data)", "self._data"):
+            return norm.canon(t) != "(None is self._data)"   # the block data have been loaded by the time they are decoded
+        return None
+    table = {}
+    for kind in ("none", "float", "array"):
+        env, _ = cases.CaseEval(rw.node, w_absval, w_decide).run({"<input>": ("in", kind)})
+        table[kind] = (env or {}).get("self._weights", cases.UNKNOWN)
+    reader_ok = table == {"none": ("fill", ("const", 1.0)), "float": ("fill", ("in", "float")), "array": ("in", "array")}
+    cases_detail = "reader table %s" % table
     ctx.ob("W3PostingsWriter._mini_weights <-> W3LeafMatcher._read_weights", none_ok and scalar_ok and reader_ok,
            "weights collapse to None only if all are 1.0 and to a scalar only if all are equal; the reader expands None to 1.0 and a float to itself",
-           detail="writer return cases and their guards: %s" % cases, loc=mw.loc)
+           detail="writer return cases and their guards: %s; %s" % (wcases, cases_detail), loc=mw.loc)
     # compact values
     mv = prog.method(W3 + "W3PostingsWriter", "_mini_values", inherited=False)
     rv = prog.method(W3 + "W3LeafMatcher", "_read_values", inherited=False)
 
-    def size_cases(func):
-        # tests on the format's fixed value size, whatever local holds it (writer: self._format.fixed_value_size(), reader: self._fixedsize)
-        out = []
-        for st in ast.walk(func.node):
-            if isinstance(st, ast.If):
-                t = norm.deep_canon(st.test, func.node)
-                t2 = t.replace("self._format.fixed_value_size()", "FS").replace("self._fixedsize", "FS")
-                if "FS" in t2:
-                    out.append(t2)
+    # both sides as tables over the fixed value size: None / negative / zero / positive -> what is produced
+    def v_table(func, produced, inputname):
+        fsvars = set()
+        for name, vals in norm.assigned_names(func.node).items():
+            if len(vals) == 1 and vals[0] is not None and norm.canon(vals[0]) in ("self._format.fixed_value_size()", "self._fixedsize"):
+                fsvars.add(name)
+
+        def is_fs(e):
+            return (isinstance(e, ast.Name) and e.id in fsvars) or norm.canon(e) in ("self._format.fixed_value_size()", "self._fixedsize")
+
+        def absval(e, env, ev):
+            if is_fs(e):
+                return ("fs",)
+            t = cases.path_text(e, env)
+            if t == inputname:
+                return ("raw",)
+            if cases.is_plain_path(e):
+                return ("path", t)
+            ok, v = cases.const_of(e)
+            if ok:
+                return ("const", v)
+            if isinstance(e, ast.Call) and norm.call_name(e) in ("tuple", "list") and len(e.args) == 1 and ev.value(e.args[0], env) == ("raw",):
+                return ("raw",)
+            fv = fill_value(e)
+            if fv is not None and ev.value(fv, env) == ("const", None):
+                return ("nones",)
+            return ("packed",)
+
+        def decide(t, env, ev):
+            if norm.canon(t) in ("(None is self._data)", "(None is not self._data)"):
+                return norm.canon(t) != "(None is self._data)"
+            return cases.compare_concrete(t, lambda e: (True, env["<fs>"]) if is_fs(e) else (False, None))
+        out = {}
+        for label, rep in (("None", None), ("negative", -1), ("zero", 0), ("positive", 4)):
+            env, ret = cases.CaseEval(func.node, absval, decide).run({"<fs>": rep})
+            out[label] = ret if produced == "<return>" else (env or {}).get(produced, cases.UNKNOWN)
         return out
-    ctx.ob("W3PostingsWriter._mini_values <-> W3LeafMatcher._read_values", size_cases(mv) == size_cases(rv) and len(size_cases(mv)) >= 2,
-           "value packing and unpacking branch on the same fixed-size cases", detail="%s / %s" % (size_cases(mv), size_cases(rv)), loc=mv.loc)
+    wt = v_table(mv, "<return>", "self._values")
+    rt = v_table(rv, "self._values", "self._data[2]")
+    want_w = {"None": ("raw",), "negative": ("raw",), "zero": ("const", None), "positive": ("packed",)}
+    want_r = {"None": ("raw",), "negative": ("raw",), "zero": ("nones",), "positive": ("packed",)}
+    ctx.ob("W3PostingsWriter._mini_values <-> W3LeafMatcher._read_values", wt == want_w and rt == want_r,
+           "value packing and unpacking branch on the same fixed-size cases (no fixed size: stored as they are; size 0: nothing stored, "
+           "Nones read back; positive: joined and split)", detail="writer %s / reader %s" % (wt, rt), loc=mv.loc)
 
 
 FMT_GETTER = {"f": "get_float", "I": "get_uint", "B": "get_byte", "i": "get_int", "q": "get_long", "H": "get_ushort"}
